@@ -28,7 +28,7 @@ Conventions.
 * `SizeT`/`SizeT32` are 32-bit unsigned.  Where the C++ subtracts and relies on the operands being
   ordered the model uses the checked `csub` (`Fault.sizeWrap`); the one place that wraps on purpose
   (`--index; index += n`) is written as the sum it computes.
-* `BigInt<SizeT64, 1216>` (double) / `<SizeT64, 256>` (float) is used by this code as an exact
+* `BigInt<SizeT64, 1344>` (double) / `<SizeT64, 320>` (float) is used by this code as an exact
   multi-word integer: the model keeps a `Nat` and *checks* every product and left shift against
   the declared width (`Fault.bigOverflow`), keeps the loop structure (`mulLoop`, `dropDigits`,
   `bigIntToStringLoop`), `Index()` is `⌊log2 v / 64⌋`, `IsBig()` is `v ≥ 2^64`.  That the C++ words
@@ -52,6 +52,12 @@ inductive Fault where
   deriving Repr, DecidableEq
 
 abbrev M := Except Fault
+
+instance {α : Type} [DecidableEq α] : DecidableEq (M α)
+  | .ok a, .ok b => if h : a = b then isTrue (by rw [h]) else isFalse (by intro e; cases e; exact h rfl)
+  | .error a, .error b => if h : a = b then isTrue (by rw [h]) else isFalse (by intro e; cases e; exact h rfl)
+  | .ok _, .error _ => isFalse (by intro e; cases e)
+  | .error _, .ok _ => isFalse (by intro e; cases e)
 
 def Fault.name : Fault → String
   | .oobRead i n => s!"oobRead:{i}:{n}"
@@ -417,10 +423,8 @@ def f64 : Cfg := ⟨F64.bias, F64.mantissaSize, F64.signMask, F64.exponentMask, 
 def f32 : Cfg := ⟨F32.bias, F32.mantissaSize, F32.signMask, F32.exponentMask, F32.mantissaMask, F32.leadingBit,
   F32.maxCut, F32.bigIntTotalBits, F32.bigIntMaxIndex, 32⟩
 
-/-- format kinds, numbered as `Digit::RealFormatType` -/
-def fmtDefault : Nat := 0
-def fmtFixed : Nat := 1
-def fmtSemiFixed : Nat := 2
+-- format kinds are numbered as `Digit::RealFormatType`: `fmtDefault`, `fmtFixed`, `fmtSemiFixed`
+-- come from the generated constants.
 
 /-- The digit run: everything `realToString` does between the zero test and `bigIntToString`.
 Returns `(b_int, digits, fraction_length, is_positive_exp, round_up)`. -/
@@ -464,8 +468,8 @@ def digitRun (c : Cfg) (mantissa0 biasField precision fmt : Nat) : M (Nat × Nat
     let b := mantissa >>> firstShift
     let (b, shift, times) ←
       if C8.maxPowerOfFive ≤ fractionLength then
-        let maxIndex := if precision < c.maxCut then precision / C8.maxPowerOfTen + 2 else c.maxIndex
-        mulLoop c.totalBits maxIndex (fractionLength / C8.maxPowerOfFive + 1) b shift fractionLength
+        -- `max_index = b_int.MaxIndex()`: low words are dropped only when the BigInt is about to run out of room
+        mulLoop c.totalBits c.maxIndex (fractionLength / C8.maxPowerOfFive + 1) b shift fractionLength
       else pure (b, shift, fractionLength)
     let b ← if times ≠ 0 then do
         let p ← tbl C8.powerOfFive times
